@@ -80,3 +80,25 @@ PROPS['C14'] = dict(
 )
 
 NOT_YET = {}
+
+# ------------------------------------------------------------------------------------------------ C08
+def _c08(tier, seed):
+    g = dict(extra_src=['guardalloc.cpp'])
+    jobs = J('c08.cpp', 'optim', n=14, args=['part=sweeps'])
+    jobs += J('c08.cpp', 'optim', n=4, args=['part=dims'], env={'VF_GUARD': 'after'}, **g)
+    jobs += J('c08.cpp', 'debug', n=3, args=['part=dims'], env={'VF_GUARD': 'before'}, **g)
+    jobs += J('c08.cpp', 'asan', n=3, args=['part=dims'])
+    if tier == 'thorough':
+        jobs = J('c08.cpp', 'optim', n=16, args=['part=sweeps']) + jobs[14:]
+    return jobs
+PROPS['C08'] = dict(
+    level='exploration',
+    rule='cases = (layout, n_out, key kind, key bit, 2^24 chunk of the mask coefficient a) with n_in=1: every a of the chunk (or of a residue class) '
+         'through lweKeySwitch; boundary alphabet (+-64 around every digit-carry boundary, 0, 2^31, 2^32-1) for 10 layouts x {noiseless, noisy key}; '
+         '(n_in, n_out, layout, key kind, content) dimension pairs. Oracle: exact equality phase_out-phase_in = s(a-round_t(a)) - sum of the errors of the rows used '
+         '(errors known from the secret keys; either neighbour accepted on an exact rounding tie). every case non-trivial (key bit 1 or noisy rows)',
+    bounds={'quick': 'default layout (8,2), n_out=8: residue class a = VERIF_SEED (mod 64) of all 2^32 values for noiseless and noisy keys; boundary alphabet for 10 layouts; 36 dimension pairs x 12 contents under guard pages / ASan',
+            'thorough': 'all 2^32 values of a for (8,2) noiseless+noisy and (31,1),(15,2),(16,1),(3,10),(1,1) noiseless, residue class mod 16 for the others; 49 dimension pairs'},
+    assumptions=['key-switching code is in the core objects shared by all back-ends', 'rounding ties (a exactly half-way between two multiples of 2^(32-t*basebit)) may go either way'],
+    jobs=_c08,
+)
